@@ -188,6 +188,11 @@ func (db *DB) FindInBatches(dest interface{}, batchSize int, fc func(tx *DB, bat
 		if limit, ok := c.Expression.(clause.Limit); ok {
 			if limit.Limit != nil {
 				totalSize = *limit.Limit
+
+				// LIMIT 0 selects no rows, there is nothing to visit
+				if totalSize == 0 {
+					return tx
+				}
 			}
 
 			if totalSize > 0 && batchSize > totalSize {
